@@ -413,9 +413,9 @@ def vc_default_naming(H):
         env.vars['self'] = me
         r = interp.eval(node.value, env)
         ok = isinstance(r, CompSeq) and r.kind == 'dict'
-        ctx.oblige('shape: bin2canon = {key: name for key in range(2 ** d)}', bool(ok))
         if not ok:
-            return r
+            raise OutOfSubset('default-basis naming: bin2canon is not built by one dict comprehension over range(2 ** d) (contract does not apply)')
+        ctx.oblige('shape: bin2canon = {key: name for key in range(2 ** d)}', True)
         i = SInt(z3.Int('i'))
         ctx.assume(z3.And(i.t >= 0, i.t < r.src.kvc_len().t))
         cond, (k, name) = r.at(i)
@@ -424,9 +424,10 @@ def vc_default_naming(H):
         from kvc.models import JoinText
         okn = (isinstance(name, Text) and len(name.parts) == 2 and name.parts[0] == 'e'
                and isinstance(name.parts[1], JoinText) and name.parts[1].sep == '' and isinstance(name.parts[1].xs, CompSeq))
-        ctx.oblige("naming: name == 'e' + ''.join(<one digit per selected generator>)", bool(okn))
         if not okn:
-            return r
+            # the name is computed some other way (a helper, a loop): this contract reads only the one-comprehension form
+            raise OutOfSubset("default-basis naming: the name is not of the form 'e' + ''.join(<comprehension>) (contract does not apply)")
+        ctx.oblige("naming: name == 'e' + ''.join(<one digit per selected generator>)", True)
         gen = name.parts[1].xs
         j = SInt(z3.Int('j'))
         ctx.assume(z3.And(j.t >= 0, j.t < gen.src.kvc_len().t))
